@@ -196,7 +196,11 @@ func Gen(seed uint64, tier string) *Spec {
 	case 1, 2, 3, 4:
 		p.Kind = "random"
 		p.PNum, p.PDen = 1, simfw.Pick(r, []int{3, 10, 30, 100, 300, 1000})
-	case 5, 6, 7:
+	case 5:
+		p.Kind = "biased" // switches concentrated where shared state is touched
+		p.PNum, p.PDen = 1, simfw.Pick(r, []int{100, 1000})
+		p.HotNum, p.HotDen = 1, simfw.Pick(r, []int{1, 2, 4})
+	case 6, 7:
 		p.Kind = "pct"
 		p.Depth = r.Range(1, 3)
 		p.Horizon = total * simfw.Pick(r, []int{200, 1000, 3000})
